@@ -4,6 +4,7 @@
 
 mod codec;
 mod hyb;
+mod lay;
 mod infl;
 mod mem;
 mod memc;
@@ -75,6 +76,7 @@ fn main() {
         "codec" => codec::main(&args),
         "tomb" => tomb::main(&args),
         "hyb" => hyb::main(&args),
+        "lay" => lay::main(&args),
         _ => {
             eprintln!("unknown domain {domain:?}");
             2
